@@ -650,7 +650,8 @@ func (g *gen) qualifyImport(name, path string) string {
 	// TODO(light): Use parts of import path to disambiguate.
 	newName := disambiguate(name, func(n string) bool {
 		// Don't let an import take the "err" name. That's annoying.
-		return n == "err" || g.nameInFileScope(n)
+		// A package cannot be imported as "init" at all.
+		return n == "err" || n == "init" || g.nameInFileScope(n)
 	})
 	g.imports[unvendored] = importInfo{
 		name:    newName,
